@@ -85,6 +85,10 @@ def gen_plan(rng, tier):
             if rng.random() < 0.6:
                 sw['load'] = {'node': rng.randrange(n), 'n': p['pool_v2']['max_req'] * p['pool_v2']['core'] + rng.choice([1, 3]),
                               'delay': rng.choice([0.1, 0.3]), 'lead': rng.choice([0.0, 0.001, 0.004, 0.01])}
+                if rng.random() < 0.3:
+                    # ... enough of it to take every request id of every connection the pool may have (id space 64)
+                    sw['load']['n'] = 64 * p['pool_v2']['max'] + rng.choice([0, 2])
+                    sw['load']['delay'] = rng.choice([0.3, 0.6])
     return p
 
 
@@ -171,11 +175,13 @@ def run_plan(plan, seed, choices=None):
                 w.sleep(ld['lead'])
             rec = {'ks': sw['ks'], 'start': sim.nlog, 't0': sim.vnow(), 'outcome': None, 'pools': {}, 'conns': set()}
             for addr, pool in w.pools().items():
-                c = getattr(pool, '_connection', None)
-                if c is not None and getattr(c, '_socket', None) is not None:
-                    rec['conns'].add(c._socket.label)
-                rec['pools'][addr] = 'shutdown' if pool.is_shutdown else ('no-connection' if c is None else
-                                                                          ('dead' if (c.is_closed or c.is_defunct) else 'ok'))
+                cs = list(pool._connections) if hasattr(pool, '_connections') else [c for c in [getattr(pool, '_connection', None)] if c is not None]
+                for c in cs:
+                    if getattr(c, '_socket', None) is not None:
+                        rec['conns'].add(c._socket.label)
+                live = [c for c in cs if not (c.is_closed or c.is_defunct)]
+                rec['pools'][addr] = 'shutdown' if pool.is_shutdown else ('no-connection' if not cs else ('dead' if not live else (
+                    'at-capacity' if any(c.in_flight >= c.max_request_id for c in live) else 'ok')))
             switches.append(rec)
             sim.rec('switch.start', sw['ks'])
             try:
@@ -240,12 +246,15 @@ def run_plan(plan, seed, choices=None):
             nontrivial = True
         if 'no-connection' in states:
             sim.probe('pool_without_connection')
+        if 'at-capacity' in states:
+            sim.probe('connection_at_capacity_at_switch')
         if plan.get('version', 4) < 3 and rec.get('end') is not None:
             grown = [nc for nd in fc.nodes for nc in nd.conns if not nc.events and rec['start'] < nc.accepted_seq < rec['end']]
             if grown:
                 sim.probe('pool_grew_during_switch')
         if rec['outcome'] is None:
-            why = 'pool-without-connection' if 'no-connection' in states else ('pool-shutdown' if 'shutdown' in states else 'other')
+            why = 'pool-without-connection' if 'no-connection' in states else ('pool-shutdown' if 'shutdown' in states else (
+                'connection-at-capacity' if 'at-capacity' in states else 'other'))
             V.add('C20/completes', 'switch-never-completed:' + why,
                   'switch to %s (%s) neither returned nor raised by the horizon; pool states at the start: %r' % (rec['ks'], sw['how'], rec['pools']))
             continue
@@ -279,7 +288,7 @@ def run_plan(plan, seed, choices=None):
             sim.probe('request_after_switch')
             if e.get('keyspace') != rec['ks']:
                 st = rec['pools'].get(fc.nodes[e['node']].addr)
-                how = 'connection-replaced-during-switch' if (st == 'ok' and e['conn'] not in rec['conns']) else (st or 'new-pool')
+                how = 'connection-replaced-during-switch' if (st in ('ok', 'at-capacity') and e['conn'] not in rec['conns']) else (st or 'new-pool')
                 V.add('C20/applied', 'request-on-old-keyspace:' + how,
                       'after the switch to %s reported success, request %d reached node %d on a connection whose keyspace is %r (pool state at switch: %s)'
                       % (rec['ks'], rid, e['node'], e.get('keyspace'), st))
